@@ -138,7 +138,7 @@ def grid_case(ctx, idx, rng):
 
 def large_case(ctx, idx, rng):
     n = int(rng.choice([20, 50, 120]))
-    m = int(rng.integers(1, 30))
+    m = int(rng.integers(1, 30)) if idx % 3 else int(rng.integers(min(30, n), min(n, 90) + 1))
     cplx = bool(rng.random() < 0.5)
     spectrum = str(rng.choice(SPECTRA))
     start = str(rng.choice(['generic', 'real', 'invariant-rotated']))
